@@ -394,6 +394,8 @@ class SE2(SO2):
             return cls([tr.trexp2(s) for s in S])
         elif argcheck.isvector(S, 3) or argcheck.ismatrix(S, (3, 3)):
             return cls(tr.trexp2(S), check=False)
+        elif argcheck.ismatrix(S, (-1, 3)):
+            return cls([tr.trexp2(s) for s in S])
         else:
             raise ValueError('expecting an se(2) matrix or a 3-vector')
 
